@@ -5,6 +5,7 @@ from collections import defaultdict, deque
 from .core import *
 from .locks import lock_call
 from .nonzero import NonZero
+from .relfacts import RelFacts
 
 PANIC_FNS = {
     "std::option::Option::<T>::unwrap": "unwrap", "std::option::Option::<T>::expect": "unwrap",
@@ -28,6 +29,7 @@ class PanicSites:
         self.f = facts
         self._sites = None
         self.nz = NonZero(facts)
+        self.rel = RelFacts(facts)
         self.exp_impl_methods = set()
         for im in facts.impls:
             if im.get("exp"):
@@ -100,8 +102,14 @@ class PanicSites:
                     return "EnumMap index by the key enum is total"
                 if "HashMap<" in recv_ty or "BTreeMap<" in recv_ty:
                     return self._contains_guard(b, bi, t["args"][0], t["args"][1])
-                # range indexing of strings / slices and Vec[usize]
+                # Vec / slice indexed by an integer: i < len (and i >= 0 when it comes from a signed value) on every path
+                ity = (t.get("arg_tys") or ["", ""])[1]
+                if ity in ("usize",):
+                    return self.rel.index_ok(b, bi, t["args"][0], t["args"][1])
+                # range indexing of strings / slices
                 return self._index_guard(b, bi, t["args"][1], recv=t["args"][0])
+            if d.endswith(("Vec::<T, A>::remove", "Vec::<T, A>::swap_remove")):
+                return self.rel.index_ok(b, bi, t["args"][0], t["args"][1])
             return None
         return None
 
